@@ -55,7 +55,21 @@ def scripts_from_transitions(r, cb=False, prefix="s", max_len=400):
     ws, stats = vlib.walks(r, max_len=max_len)
     scripts = [{"id": "%s-%d-%d" % (prefix, w["init"], j), "cf": w["cf"], "cb": cb, "steps": w["acts"]}
                for j, w in enumerate(ws)]
+    scripts += abort_variants(scripts)
     return scripts, stats["transitions"]
+
+
+def abort_variants(scripts):
+    """the model's 'panic' outcome has two concrete forms: an arbitrary panic value and http.ErrAbortHandler
+    (what an aborted proxied response raises); scripts with a panicking call are replayed in both forms"""
+    out = []
+    for s in scripts:
+        if any(st.get("o") == "panic" for st in s["steps"]):
+            t = dict(s)
+            t["id"] = s["id"] + "-abort"
+            t["abort"] = True
+            out.append(t)
+    return out
 
 
 def replay(binp, scripts, sd, name, full=False, timeout=600):
